@@ -82,6 +82,18 @@ impl BRC20ProgEngine {
             }
         }
 
+        // Refuse before anything is executed: the genesis block must be the next block, and an earlier
+        // initialise with other genesis parameters must not have deployed the controller already
+        if genesis_height != self.get_next_block_height()? {
+            return Err("Genesis height is not the next block height".into());
+        }
+        if self
+            .get_transaction_receipt_by_inscription_id("BRC20_CONTROLLER_INIT".to_string())?
+            .is_some()
+        {
+            return Err("Already initialised with other genesis parameters".into());
+        }
+
         // Deploy BRC20 Controller contract
         let result = self.add_tx_to_block(
             genesis_timestamp,
